@@ -57,13 +57,13 @@ func (t *subscribeTransaction) Suback(mqSuback *mqPkts.SubackPacket) error {
 		// The granted QoS is the return code; the QoS bits of the MQTT
 		// SUBACK fixed header are always zero.
 		grantedQOS = mqSuback.ReturnCodes[0]
-		t.handler.provisionalTopicIDs.Delete(t.topicID)
+		t.handler.provisionalTopicIDConfirm(t.topicID)
 		t.Success()
 	} else {
 		returnCode = snPkts1.RC_NOT_SUPPORTED
 		// The TopicID registered for this subscription (if any) was not
 		// accepted by the client, hence it must not be used in a PUBLISH.
-		if _, provisional := t.handler.provisionalTopicIDs.LoadAndDelete(t.topicID); t.topicIDIsNew && provisional {
+		if t.topicIDIsNew && t.handler.provisionalTopicIDRefuse(t.topicID) {
 			t.handler.registeredTopics.Delete(t.topicID)
 		}
 		t.Fail(fmt.Errorf("MQTT SUBACK return code: %d", mqSuback.ReturnCodes[0]))
